@@ -880,6 +880,8 @@ MUTANTS = [
            lambda f, t: replace_expr(f, lambda e: isinstance(e, ast.Call) and "__init__" in u(e.func), "super(_OnewayCallThread, self).__init__(name='oneway-call')")),
     Mutant("C03", "oneway-thread-forgets-the-arguments", "C03-R8", S, "_OnewayCallThread.__init__",
            lambda f, t: delete_stmt(f, lambda s: isinstance(s, ast.Assign) and u(s) == "self.pyro_vargs = vargs")),
+    Mutant("C10", "every-result-filed-as-a-stream", "C10-R3", S, "Daemon._streamResponse",
+           lambda f, t: set_test(f, lambda e: "isgenerator" in u(e), "True")),
     Mutant("C18", "communication-timeout-set-by-the-worker", "C18-R3", ST, "SocketServer_Threadpool.events",
            lambda f, t: (delete_stmt(f, lambda s: isinstance(s, ast.If) and "COMMTIMEOUT" in u(s.test)),
                          find_fn(t, "ClientConnectionJob.__call__").body.insert(0, stmts("if config.COMMTIMEOUT:\n    self.csock.timeout = config.COMMTIMEOUT")[0])), also=("C05",)),
